@@ -24,6 +24,9 @@ THEOREMS = [
     "Mesa.Cont.C10_exp_remove_lifecycle",
     "Mesa.Cont.C10_exp_agent_api",
     "Mesa.Cont.C10_exp_raw_view_write",
+    "Mesa.Cont.C10_exp_capacity_names_the_array",
+    "Mesa.Cont.C10_exp_kept_view_write",
+    "Mesa.Cont.C10_exp_kept_view_read",
     "Mesa.Cont.C10_legacy_neighbors_exact",
     "Mesa.Cont.C10_legacy_neighbors_mem",
     "Mesa.Cont.C10_legacy_exclude_center",
@@ -64,7 +67,7 @@ TRUSTED = [
     "coordinates/radii are ints in units of 1/64 of small magnitude: every + - * % abs min <= the code performs on them is exact in binary64; IEEE rounding of other floats is not modelled",
     "math.sqrt / np.sqrt / scipy cdist(euclidean) return the correctly rounded square root of the exactly computed sum of squares (the harness inverts it exactly and re-checks sqrt(N)/64 == d); `distances <= radius` is then equivalent to the exact comparison of squares",
     "numpy argpartition(d, kth): a permutation of the indices with d[res[i]] <= d[res[kth]] for i < kth and >= for i > kth (the driver runs a stable full sort, which satisfies it: theorem C10_argsortPart_spec); which of several agents at exactly the k-th distance is returned is left open (get_nearest_neighbors with more than k+1 agents on the agent's own spot: k or k+1 distinct other agents at distance 0 are accepted, theorem C10_exp_nearest_neighbors_ties)",
-    "numpy slicing/boolean masks/fancy indexing/vstack/overlapping slice assignment as documented; np.empty rows are modelled as an unspecified value that is never observed (a new agent is given a position before it is read)",
+    "numpy slicing/boolean masks/fancy indexing/vstack/overlapping slice assignment as documented (a basic slice is a view sharing the memory of its base for as long as it is referenced; vstack returns a new array and leaves its arguments alone); np.empty rows are modelled as an unspecified value that is never observed (a new agent is given a position before it is read)",
     "Python dict = insertion-ordered finite map (legacy _agent_to_index); agent objects are named by small ints",
 ]
 ASSUMPTIONS = [
@@ -75,7 +78,7 @@ ASSUMPTIONS = [
 ]
 RULE = ("random histories over both classes (50/50; 10% from the rejecting-call stream of C18): bounds with negative / non-unit origins and sizes 1/64 .. 15.6, torus on/off, "
         "experimental: 1-D .. 5-D (2-D and 3-D most often) and initial capacities {0,1,2,3,5,50,100}; 4-45 ops from place/new+set, move/set (12% per-axis out of bounds, "
-        "coincident and boundary positions), `position += v`, item writes into the returned position, raw writes through the `space.agent_positions` view and the ignored `pos` setter (experimental), remove, every agent method on removed agent objects, pos, agents, radius / k-nearest (k in 0..n+1, often n) / neighbour queries incl. on the "
+        "coincident and boundary positions), `position += v`, item writes into the returned position, raw writes through the `space.agent_positions` view, references to that view kept across later calls (read and written after re-slicing and re-allocation) and the ignored `pos` setter (experimental), remove, every agent method on removed agent objects, pos, agents, radius / k-nearest (k in 0..n+1, often n) / neighbour queries incl. on the "
         "empty space and right after a cached read + move, distances and heading/difference vectors (30% of the toroidal ones exactly half the size apart: the tie of the heading rule); radii aimed at exact agent distances; "
         "non-trivial = >= 2 agents in the space at some point, a mutation after the first query and a query answer naming an agent; "
         "distinct = distinct op-line sequences (sha1)")
@@ -98,7 +101,7 @@ run_impl = C.run_impl
 oracle = C.oracle
 
 QUERIES = ("nbrs", "radius", "knn", "nir", "nn", "dists")
-MUTATORS = ("place", "move", "set", "remove", "new", "iadd", "raw")
+MUTATORS = ("place", "move", "set", "remove", "new", "iadd", "raw", "hraw")
 
 
 def nontrivial(sc, obs):
@@ -132,6 +135,7 @@ def tags(sc, obs):
         yield "ndims:%d" % ((len(w0) - 5) // 2)
     live, cached, first = [], False, True
     dead = set()
+    cap, reallocs, kept = (int(w0[4]) if kind == "exp" else 0), 0, {}
     for l, o in zip(sc.lines[1:], obs[1:]):
         w = l.split()
         yield "op:" + w[0]
@@ -148,6 +152,14 @@ def tags(sc, obs):
                 yield "branch:write-through-agent_positions-view"
             if w[0] == "poke" and o == "ok":
                 yield "branch:write-into-returned-position"
+            if w[0] == "new" and o == "ok" and cap <= len(live):
+                cap += max(int(round(0.2 * (len(live) + 1))), 1)
+                reallocs += 1
+            if w[0] == "hold":
+                kept[w[1]] = (reallocs, len(live))
+            if w[0] in ("hread", "hraw") and w[1] in kept:
+                state = "re-allocated-array" if kept[w[1]][0] != reallocs else ("resliced-array" if kept[w[1]][1] != len(live) else "current-array")
+                yield "branch:kept-view-" + ("write" if w[0] == "hraw" else "read") + "-" + state
         if o.startswith("err"):
             yield "reject:" + w[0] + ":" + o.split()[1]
         if w[0] in QUERIES + ("diffs", "agents") and not live:
